@@ -23,11 +23,12 @@ From OQ3 Require Import gen.Templates Model.Accept Proofs.AcceptP.
 Import ListNotations.
 
 Theorem C04_every_statement_form_in_every_context : forall c i,
-  In c ctx_ids -> In i ids -> k_c04_rejected i = false -> k_ctx_empty c i = false -> accepted_in c i = true.
+  In c ctx_ids -> In i ids -> k_c04_rejected i = false -> k_ctx_empty c i = false -> k_box_top c i = false ->
+  accepted_in c i = true.
 Proof.
-  intros c i Hc Hi K K2. pose proof templates_accepted as H.
+  intros c i Hc Hi K K2 K3. pose proof templates_accepted as H.
   rewrite forallb_forall in H. specialize (H c Hc). rewrite forallb_forall in H.
-  specialize (H i Hi). rewrite K, K2 in H. exact H.
+  specialize (H i Hi). rewrite K, K2, K3 in H. exact H.
 Qed.
 
 Theorem C04_known_findings_refuted : forall c i,
@@ -38,9 +39,15 @@ Proof.
   specialize (H i Hi). rewrite K in H. cbn in H. apply negb_true_iff in H. exact H.
 Qed.
 
-Example C04_nonvacuous : (120 <=? List.length ids)%nat = true /\ List.length ctx_ids = 10%nat /\
+(* a box statement needs a terminating `;` at top level (known finding), not before a closing brace *)
+Theorem C04_box_needs_semicolon_refuted :
+  accepted_in 0 T_box_stmt = false /\ accepted_in 3 T_box_stmt = false /\ accepted_in 4 T_box_stmt = true.
+Proof. exact box_needs_semicolon_refuted. Qed.
+
+Example C04_nonvacuous : (139 <=? List.length ids)%nat = true /\ List.length ctx_ids = 10%nat /\
   length (filter k_c04_rejected ids) = 5%nat.
 Proof. vm_compute. auto. Qed.
 
 Print Assumptions C04_every_statement_form_in_every_context.
 Print Assumptions C04_known_findings_refuted.
+Print Assumptions C04_box_needs_semicolon_refuted.
